@@ -395,7 +395,10 @@ class World(Sim):
             return None
         if reason == 'activation_timeout' and inst.state != 'pending':
             reason = 'terminated'      # the monitor only reports an activation timeout for an instance that never activated
-        return await self._guard(inst.deactivate(reason, self.now_ms()))
+        state_before = inst.state
+        r = await self._guard(inst.deactivate(reason, self.now_ms()))
+        r.update(instance=inst.name, reason=reason, instance_state_before=state_before)
+        return r
 
     async def op_mark_deleted(self, inst_i):
         inst = self.instances.get(self._pick(self.inst_list, inst_i))
@@ -557,13 +560,19 @@ WHERE {where} ORDER BY jobs.batch_id, jobs.job_id''', args)
                             'job_parents', 'attempts']))
         cands = []
         for x in self.attempts:
-            if x['instance'] not in self.instances or self.instances[x['instance']].state != 'active':
+            if x['instance'] not in self.instances:
                 continue
             j = v.jobs.get((x['batch_id'], x['job_id']))
             row = v.attempts.get((x['batch_id'], x['job_id'], x['attempt_id']))
             if j is None or row is None:
                 continue
             current = j['state'] in ('Running', 'Creating') and j['attempt_id'] == x['attempt_id']
+            if self.instances[x['instance']].state != 'active':
+                # reordered driver message: the orphan loop selected (attempt, instance) while the instance was active; by the time
+                # its unschedule_job call runs the instance is gone and the job has moved on to another attempt
+                if stale and not current and j['attempt_id'] is not None and row['start_time'] is not None:
+                    cands.append(x)
+                continue
             if current and j['state'] == 'Running' and v.job_cancelled(j):
                 cands.append(x)
             elif not current and row['start_time'] is not None and row['end_time'] is None:
@@ -619,10 +628,22 @@ WHERE {where} ORDER BY jobs.batch_id, jobs.job_id''', args)
             return None
         return await self._guard(self.canceller.cancel_cancelled_ready_jobs_loop_body())
 
-    async def op_cancel_creating(self):
+    async def op_cancel_creating(self, crash=False):
+        """crash=True: the driver dies (the cloud call fails) right after mark_job_complete, before the instance is deleted, so the
+        job-private instance stays pending with an already ended attempt"""
         if self._frozen_parent_guard(states=('Creating',)):
             return None
-        return await self._guard(self.canceller.cancel_cancelled_creating_jobs_loop_body())
+        if not crash:
+            return await self._guard(self.canceller.cancel_cancelled_creating_jobs_loop_body())
+        orig = self.jpim.call_delete_instance
+
+        async def dies(*a, **k):
+            raise RuntimeError('injected: driver stopped before the instance was deleted')
+        self.jpim.call_delete_instance = dies
+        try:
+            return await self._guard(self.canceller.cancel_cancelled_creating_jobs_loop_body())
+        finally:
+            self.jpim.call_delete_instance = orig
 
     async def op_cancel_running(self):
         return await self._guard(self.canceller.cancel_cancelled_running_jobs_loop_body())
